@@ -23,6 +23,7 @@ EXPLANATION = (
     'DefaultAggregation::CreateAggregation call inside a storage that holds an aggregation config passes it (the default '
     'argument there drops view-configured boundaries). C07.R6 (rejection guard): the histogram instruments drop a value only '
     'behind exactly "value < 0" (or a missing storage).')
+EXPLANATION += ' C07.R2 accepts an explicit comparator only when it compares (boundary, value) in double without converting the boundary. The shared rule C06.R1 (Aggregate while holding the table lock) is evaluated for the histogram path.'
 NOT_DECIDED = 'numeric equality for all value multisets (floating-point sums), equality of merged and jointly recorded points.'
 
 CLASSES = (('sdk::metrics::LongHistogramAggregation', 'long'), ('sdk::metrics::DoubleHistogramAggregation', 'double'))
